@@ -21,6 +21,13 @@ def obligations(tier):
     for did in ("D02", "D12"):
         o = ob("C02", "e2c.early." + did, "vt.harness.C02:lifecycle", {"did": did, "steps": 5, "control": "pause", "early_resume": True}, timeout=900)
         obs.append(o)
+    from vt import defs as _defs
+
+    did = _defs.items_def(3, 2).id
+    o = ob("C02", "e2c.cascade.items", "vt.harness.C02:lifecycle", {"did": did, "steps": 6, "control": "either", "intermediate": True, "statuses": ["succeeded", "canceled"]}, timeout=1200)
+    from vt.harness.common import control_slices as _cs
+
+    obs.extend(_cs(o, 4))
     obs.append(ob("C02", "twin.D04", "vt.harness.C02:lifecycle", {"did": "D04", "steps": 5, "twin": True}, timeout=60))
     obs.append(A5.obligation("C02", tier))
     return obs
